@@ -1,1 +1,336 @@
-(* Proofs/Iter.v -- stub, to be filled in *)
+(* Proofs/Iter.v -- lemmas about Model/Iter.v that hold over ANY arithmetic (floats included):
+   the loop rule for fuelled early-exit loops, the identity preconditioner, and for each of the
+   four solvers: Ok k => k <= max_iter, budget 0 => x untouched, Ok only after a passed test. *)
+From Coq Require Import List Arith Lia Bool.
+From OV Require Import Base.Panic Base.Arith Model.Vector Model.Iter.
+Import ListNotations.
+Local Open Scope bool_scope.
+
+(* invert an equation  <monadic program> = Ok _  one statement at a time *)
+Ltac inv_step :=
+  match goal with
+  | H : bind _ _ = Ok _ |- _ => apply bind_ok in H; destruct H as (? & ? & H); cbv beta in H
+  | H : Panic _ = Ok _ |- _ => discriminate H
+  | H : (if ?c then _ else _) = Ok _ |- _ => destruct c eqn:?
+  | H : (let '(_, _) := ?p in _) = Ok _ |- _ => destruct p
+  end.
+Ltac inv_res := repeat inv_step.
+
+Section LoopRule.
+Context {A : SArith}.
+
+(* every result of a loop is either returned by the body from a state reached through
+   [Continue] steps, or the final value of the state reached when the fuel ran out *)
+Lemma iloop_char {S} (body : nat -> S -> res (step_out S)) (final : S -> iout A) (Inv : nat -> S -> Prop) :
+  (forall i s s', Inv i s -> body i s = Ok (Continue s') -> Inv (Datatypes.S i) s') ->
+  forall fuel i0 s0 o, Inv i0 s0 -> iloop body final fuel i0 s0 = Ok o ->
+    (exists i s, i0 <= i < i0 + fuel /\ Inv i s /\ body i s = Ok (Return o)) \/
+    (exists s, Inv (i0 + fuel) s /\ o = final s).
+Proof.
+  intros Hstep fuel; induction fuel as [|f IH]; intros i0 s0 o H0 E; cbn in E.
+  - right. exists s0. rewrite Nat.add_0_r. split; auto. congruence.
+  - apply bind_ok in E as (so & Eb & E). destruct so as [s'|o'].
+    + destruct (IH (Datatypes.S i0) s' o (Hstep _ _ _ H0 Eb) E) as [(i & s & Hi & HI & Hb)|(s & HI & ->)].
+      * left. exists i, s. split; [lia|auto].
+      * right. exists s. split; auto. now replace (i0 + Datatypes.S f) with (Datatypes.S i0 + f) by lia.
+    + injection E as <-. left. exists i0, s0. split; [lia|auto].
+Qed.
+
+Lemma iloop_zero {S} (body : nat -> S -> res (step_out S)) (final : S -> iout A) i s :
+  iloop body final 0 i s = Ok (final s).
+Proof. reflexivity. Qed.
+
+End LoopRule.
+
+Section IdentPre.
+Context {A : SArith}.
+Notation F := (T (SA A)).
+
+(* vadd / vsub succeed exactly when the sizes agree *)
+Lemma vadd_Ok (u v w : list F) : vadd u v = Ok w -> length u = length v /\ w = zipw add u v.
+Proof. unfold vadd. destruct (Nat.eqb_spec (length u) (length v)); [|discriminate]. intros H; injection H as <-; auto. Qed.
+Lemma vsub_Ok (u v w : list F) : vsub u v = Ok w -> length u = length v /\ w = zipw sub u v.
+Proof. unfold vsub. destruct (Nat.eqb_spec (length u) (length v)); [|discriminate]. intros H; injection H as <-; auto. Qed.
+Lemma zipw_length (f : F -> F -> F) (u v : list F) : length u = length v -> length (zipw f u v) = length u.
+Proof. intros H. unfold zipw. rewrite map_length, combine_length. lia. Qed.
+Lemma vscale_length (u : list F) c : length (vscale u c) = length u.
+Proof. apply map_length. Qed.
+Lemma vscale_l_length (u : list F) c : length (vscale_l c u) = length u.
+Proof. apply map_length. Qed.
+
+Lemma guards_Ok rows cols (b x : list F) u :
+  guards rows cols b x = Ok u -> rows = length b /\ rows = cols /\ length b = length x.
+Proof.
+  unfold guards.
+  destruct (Nat.eqb_spec rows (length b)); [|discriminate].
+  destruct (Nat.eqb_spec rows cols); [|discriminate].
+  destruct (Nat.eqb_spec (length b) (length x)); [|discriminate]. auto.
+Qed.
+
+(* identity_preconditioner(b, x) overwrites x with b *)
+Lemma ident_pre_ok rows (b x : list F) :
+  length b = rows -> length x = rows -> ident_pre rows b x = Ok b.
+Proof.
+  intros Hb Hx. unfold ident_pre. rewrite Hb, Nat.eqb_refl. cbn [negb].
+  destruct (for_inv (fun i (y : list F) => length y = rows /\
+              forall j, j < rows -> nth j y zero = if j <? i then nth j b zero else nth j x zero)
+            0 rows (fun i x => let* bi := rd b i in upd x i bi) x) as (y & Ey & Hl & Hy).
+  - lia.
+  - split; auto.
+  - intros i y Hi (Hl & Hy). rewrite (rd_ok b i zero) by lia. cbn [bind].
+    rewrite upd_ok by lia. eexists; split; [reflexivity|]. split.
+    + now rewrite upd_list_length.
+    + intros j Hj. rewrite nth_upd_list by lia.
+      destruct (Nat.eqb_spec j i) as [->|Hne].
+      * now replace (i <? Datatypes.S i) with true by (symmetry; apply Nat.ltb_lt; lia).
+      * rewrite Hy by lia. destruct (Nat.ltb_spec j i), (Nat.ltb_spec j (Datatypes.S i)); auto; lia.
+  - rewrite Ey. f_equal. apply (nth_ext y b zero zero); [lia|].
+    intros j Hj. rewrite Hy by lia. now replace (j <? rows) with true by (symmetry; apply Nat.ltb_lt; lia).
+Qed.
+
+Lemma ident_pre_Ok rows (b x y : list F) :
+  ident_pre rows b x = Ok y -> length x = rows -> y = b /\ length b = rows.
+Proof.
+  intros E Hx. assert (Hb : length b = rows).
+  { unfold ident_pre in E. destruct (Nat.eqb_spec rows (length b)); [auto|discriminate]. }
+  rewrite ident_pre_ok in E by auto. injection E as <-; auto.
+Qed.
+
+End IdentPre.
+
+Section AnyArith.
+Context {A : SArith}.
+Notation F := (T (SA A)).
+Variables (mulA mulAT : list F -> res (list F)) (rows cols : nat).
+
+(* "the last convergence test succeeded": the norm of the ghost vector g_t over the code's
+   ||b|| (0 replaced by 1) is <= tol (or < tol: the BiCGSTAB full-step exit) *)
+Definition passed (b : list F) (tol : F) (g : ghost A) : Prop :=
+  exists resid, div (norm2 (g_t g)) (nz (norm2 b)) = Ok resid /\
+                (leb resid tol = true \/ ltb resid tol = true).
+
+(* an Ok answer of a loop comes from a body step that returned it *)
+Lemma loop_ok_inv {S} (body : nat -> S -> res (step_out S)) (final : S -> iout A) (Q : ghost A -> Prop) n s0 k x g :
+  (forall i s k x g, body i s = Ok (Return (IOk k, x, g)) -> k = i /\ Q g) ->
+  (forall s, exists e x g, final s = (IErr e, x, g)) ->
+  iloop body final n 1 s0 = Ok (IOk k, x, g) -> 1 <= k <= n /\ Q g.
+Proof.
+  intros Hret Hfin E.
+  destruct (iloop_char body final (fun _ _ => True) (fun _ _ _ _ _ => I) n 1 s0 _ I E)
+    as [(i & s & Hi & _ & Hb)|(s & _ & Ef)].
+  - apply Hret in Hb as (-> & HQ). split; [lia|auto].
+  - destruct (Hfin s) as (e & x' & g' & Ef'). rewrite Ef' in Ef. discriminate.
+Qed.
+
+Ltac fin_ret_core :=
+  repeat match goal with E : Ok _ = Ok _ |- _ => injection E; clear E; intros end;
+  first [congruence | subst; split; [reflexivity | cbn; eauto]].
+Ltac fin_ret := first [congruence | fin_ret_core].
+
+Lemma cg_body_ret tol normb i s k x g :
+  cg_body mulA rows tol normb i s = Ok (Return (IOk k, x, g)) ->
+  k = i /\ exists resid, div (norm2 (g_t g)) normb = Ok resid /\ (leb resid tol = true \/ ltb resid tol = true).
+Proof. unfold cg_body. intros H. inv_res; fin_ret. Qed.
+
+Lemma bicg_body_ret itol tol bnrm i s k x g : itol = 1 \/ itol = 2 ->
+  bicg_body mulA mulAT rows itol tol bnrm i s = Ok (Return (IOk k, x, g)) ->
+  k = i /\ exists resid, div (norm2 (g_t g)) bnrm = Ok resid /\ (leb resid tol = true \/ ltb resid tol = true).
+Proof.
+  unfold bicg_body. intros [-> | ->] H; cbn [Nat.eqb] in H; inv_res; try discriminate;
+    fin_ret.
+Qed.
+
+Lemma stab_body_ret rtilde tol normb i s k x g :
+  stab_body mulA rows rtilde tol normb i s = Ok (Return (IOk k, x, g)) ->
+  k = i /\ exists resid, div (norm2 (g_t g)) normb = Ok resid /\ (leb resid tol = true \/ ltb resid tol = true).
+Proof. unfold stab_body. intros H. inv_res; fin_ret. Qed.
+
+Lemma qmr_body_ret tol normb i s k x g :
+  qmr_body mulA mulAT tol normb i s = Ok (Return (IOk k, x, g)) ->
+  k = i /\ exists resid, div (norm2 (g_t g)) normb = Ok resid /\ (leb resid tol = true \/ ltb resid tol = true).
+Proof. unfold qmr_body, qmr_exit. intros H. inv_res; fin_ret. Qed.
+
+End AnyArith.
+
+Section AnyArithRun.
+Context {A : SArith}.
+Notation F := (T (SA A)).
+Variables (mulA mulAT : list F -> res (list F)) (rows cols : nat).
+
+Lemma zeros_length : length (@zeros A rows) = rows.
+Proof. apply repeat_length. Qed.
+
+Lemma bicg_start_Ok itol (b x r z : list F) bnrm :
+  bicg_start mulA rows cols itol b x = Ok (r, bnrm, z) ->
+  (itol = 1 \/ itol = 2) /\ bnrm = norm2 b.
+Proof.
+  unfold bicg_start. intros H. inv_res.
+  - apply Nat.eqb_eq in Heqb0. destruct x3 as [f l]; cbn in H. split; [auto | congruence].
+  - apply Nat.eqb_eq in Heqb1.
+    apply guards_Ok in H0 as (Hr & _ & _).
+    match goal with E : ident_pre _ b _ = Ok _ |- _ =>
+      apply ident_pre_Ok in E as (-> & _); [|apply zeros_length] end.
+    destruct x3 as [f l]; cbn in H. split; [auto | congruence].
+Qed.
+
+Definition tested (normb tol : F) (g : ghost A) : Prop :=
+  exists resid, div (norm2 (g_t g)) normb = Ok resid /\ (leb resid tol = true \/ ltb resid tol = true).
+
+
+Lemma run_ok_inv sv b x0 n tol k x g :
+  run mulA mulAT rows cols sv b x0 n tol = Ok (IOk k, x, g) ->
+  k <= n /\ passed b tol g.
+Proof.
+  unfold passed. fold (tested (nz (norm2 b)) tol g).
+  destruct sv as [|itol| |]; cbn [run]; intros H.
+  - unfold solve_cg in H. inv_res.
+    + injection H as <- <- <-. split; [lia|]. unfold tested; cbn; eauto.
+    + apply (loop_ok_inv _ _ (tested (nz (norm2 b)) tol)) in H as (Hk & HQ); [split; [lia|auto]| |].
+      * intros i s k' x' g'. apply cg_body_ret.
+      * intros s. unfold cg_final. eauto.
+  - unfold solve_bicg in H. inv_res.
+    + apply bicg_start_Ok in H0 as (Hit & ->).
+      injection H as <- <- <-. split; [lia|]. unfold tested; cbn; eauto.
+    + apply bicg_start_Ok in H0 as (Hit & ->).
+      apply (loop_ok_inv _ _ (tested (nz (norm2 b)) tol)) in H as (Hk & HQ); [split; [lia|auto]| |].
+      * intros i s k' x' g'. now apply bicg_body_ret.
+      * intros s. unfold bicg_final. eauto.
+  - unfold solve_bicgstab in H. inv_res.
+    + injection H as <- <- <-. split; [lia|]. unfold tested; cbn; eauto.
+    + apply (loop_ok_inv _ _ (tested (nz (norm2 b)) tol)) in H as (Hk & HQ); [split; [lia|auto]| |].
+      * intros i s k' x' g'. apply stab_body_ret.
+      * intros s. unfold stab_final. eauto.
+  - unfold solve_qmr in H. inv_res.
+    + injection H as <- <- <-. split; [lia|]. unfold tested; cbn; eauto.
+    + apply (loop_ok_inv _ _ (tested (nz (norm2 b)) tol)) in H as (Hk & HQ); [split; [lia|auto]| |].
+      * intros i s k' x' g'. apply qmr_body_ret.
+      * intros s. unfold qmr_final, qmr_exit. eauto.
+Qed.
+
+(* budget 0: whatever is returned, x is the caller's x *)
+Lemma run_zero_budget sv b x0 tol o x g :
+  run mulA mulAT rows cols sv b x0 0 tol = Ok (o, x, g) -> x = x0.
+Proof.
+  destruct sv as [|itol| |]; cbn [run]; intros H.
+  - unfold solve_cg in H. inv_res; cbn [iloop] in H; unfold cg_final, bicg_final, stab_final, qmr_final, qmr_exit in H; cbn in H; congruence.
+  - unfold solve_bicg in H. inv_res; cbn [iloop] in H; unfold cg_final, bicg_final, stab_final, qmr_final, qmr_exit in H; cbn in H; congruence.
+  - unfold solve_bicgstab in H. inv_res; cbn [iloop] in H; unfold cg_final, bicg_final, stab_final, qmr_final, qmr_exit in H; cbn in H; congruence.
+  - unfold solve_qmr in H. inv_res; cbn [iloop] in H; unfold cg_final, bicg_final, stab_final, qmr_final, qmr_exit in H; cbn in H; congruence.
+Qed.
+
+End AnyArithRun.
+
+(* observers used by the non-vacuity examples (closed terms evaluate under vm_compute) *)
+Definition ok_k {A : SArith} (o : res (iout A)) : option nat :=
+  match o with Ok (IOk k, _, _) => Some k | _ => None end.
+Definition out_x {A : SArith} (o : res (iout A)) : option (list (T (SA A))) :=
+  match o with Ok (_, x, _) => Some x | _ => None end.
+Lemma ok_k_witness {A : SArith} (o : res (iout A)) k :
+  ok_k o = Some k -> exists x g, o = Ok (IOk k, x, g).
+Proof. destruct o as [[[[k'|e] x] g]|p]; cbn; intros H; try discriminate. injection H as ->. eauto. Qed.
+Lemma out_x_witness {A : SArith} (o : res (iout A)) x :
+  out_x o = Some x -> exists r g, o = Ok (r, x, g).
+Proof. destruct o as [[[r x'] g]|p]; cbn; intros H; try discriminate. injection H as ->. eauto. Qed.
+
+Section Startup.
+Context {A : SArith}.
+Notation F := (T (SA A)).
+Variables (mulA mulAT : list F -> res (list F)) (rows cols : nat).
+
+(* ANY arithmetic (floats included): if the start-up residual r = b - A x0 the code forms passes the
+   code's test, every solver returns Ok 0 at once and leaves x0 untouched *)
+Lemma run_startup_accepts sv (b x0 : list F) max tol ax r e :
+  (forall itol, sv = BiCG itol -> itol = 1 \/ itol = 2) ->
+  guards rows cols b x0 = Ok tt -> mulA x0 = Ok ax -> vsub b ax = Ok r ->
+  div (norm2 r) (nz (norm2 b)) = Ok e -> leb e tol = true ->
+  exists g, run mulA mulAT rows cols sv b x0 max tol = Ok (IOk 0, x0, g).
+Proof.
+  intros Hit Hg Eax Er Ee Ht.
+  destruct sv as [|itol| |]; cbn [run].
+  - unfold solve_cg. rewrite Hg, Eax. cbn [bind]. rewrite Er. cbn [bind]. rewrite Ee. cbn [bind]. rewrite Ht. eauto.
+  - apply guards_Ok in Hg as Hl. destruct Hl as (Hb & Hc & Hx).
+    apply vsub_Ok in Er as Hr. destruct Hr as (Hlr & Hrv).
+    assert (Hrl : length r = rows) by (subst r; rewrite zipw_length; auto).
+    unfold solve_bicg, bicg_start. rewrite Hg, Eax. cbn [bind]. rewrite Er. cbn [bind].
+    destruct (Hit itol eq_refl) as [-> | ->]; cbn [Nat.eqb].
+    + rewrite ident_pre_ok by (auto; apply zeros_length). cbn [bind fst snd].
+      rewrite Ee. cbn [bind]. rewrite Ht. eauto.
+    + rewrite ident_pre_ok by (auto; apply zeros_length). cbn [bind].
+      rewrite ident_pre_ok by auto. cbn [bind fst snd].
+      rewrite Ee. cbn [bind]. rewrite Ht. eauto.
+  - unfold solve_bicgstab. rewrite Hg, Eax. cbn [bind]. rewrite Er. cbn [bind]. rewrite Ee. cbn [bind]. rewrite Ht. eauto.
+  - unfold solve_qmr. rewrite Hg, Eax. cbn [bind]. rewrite Er. cbn [bind]. rewrite Ee. cbn [bind]. rewrite Ht. eauto.
+Qed.
+End Startup.
+
+Section Lengths.
+Context {A : SArith}.
+Notation F := (T (SA A)).
+Variables (mulA mulAT : list F -> res (list F)) (rows cols : nat).
+
+(* the x-component of an output / of a step *)
+Definition out_x_len (L : nat) (o : iout A) : Prop := length (snd (fst o)) = L.
+
+Lemma vadd_len (u v w : list F) : vadd u v = Ok w -> length w = length u.
+Proof. intros E. apply vadd_Ok in E as (Hl & ->). now apply zipw_length. Qed.
+
+Ltac len_fin :=
+  repeat match goal with
+  | E : vadd ?u _ = Ok ?w |- _ => apply vadd_len in E
+  | E : Ok _ = Ok _ |- _ => injection E; clear E; intros; subst
+  end; cbn in *; try congruence; try lia.
+
+Lemma loop_len {S} (body : nat -> S -> res (step_out S)) (final : S -> iout A) (xs : S -> list F) L fuel s0 o :
+  (forall i s out, length (xs s) = L -> body i s = Ok out ->
+     match out with Continue s' => length (xs s') = L | Return o => out_x_len L o end) ->
+  (forall s, snd (fst (final s)) = xs s) ->
+  length (xs s0) = L -> iloop body final fuel 1 s0 = Ok o -> out_x_len L o.
+Proof.
+  intros Hb Hf H0 E.
+  destruct (iloop_char body final (fun _ s => length (xs s) = L)
+              (fun i s s' HI Eb => Hb i s (Continue s') HI Eb) fuel 1 s0 o H0 E)
+    as [(i & s & _ & HI & Eb)|(s & HI & ->)].
+  - exact (Hb i s (Return o) HI Eb).
+  - unfold out_x_len. now rewrite Hf.
+Qed.
+
+Lemma cg_body_len L tol normb i s out : length (cg_x s) = L -> cg_body mulA rows tol normb i s = Ok out ->
+  match out with Continue s' => length (cg_x s') = L | Return o => out_x_len L o end.
+Proof. intros HL. unfold cg_body. intros H. inv_res; unfold out_x_len; len_fin. Qed.
+
+Lemma bicg_body_len L itol tol bnrm i s out : length (bi_x s) = L -> bicg_body mulA mulAT rows itol tol bnrm i s = Ok out ->
+  match out with Continue s' => length (bi_x s') = L | Return o => out_x_len L o end.
+Proof. intros HL. unfold bicg_body. intros H. inv_res; unfold out_x_len; len_fin. Qed.
+
+Lemma stab_body_len L rtilde tol normb i s out : length (st_x s) = L -> stab_body mulA rows rtilde tol normb i s = Ok out ->
+  match out with Continue s' => length (st_x s') = L | Return o => out_x_len L o end.
+Proof. intros HL. unfold stab_body. intros H. inv_res; unfold out_x_len; len_fin. Qed.
+
+Lemma qmr_body_len L tol normb i s out : length (q_x s) = L -> qmr_body mulA mulAT tol normb i s = Ok out ->
+  match out with Continue s' => length (q_x s') = L | Return o => out_x_len L o end.
+Proof. intros HL. unfold qmr_body, qmr_exit. intros H. inv_res; unfold out_x_len; len_fin. Qed.
+
+(* whatever a solver returns, x has the length of the caller's x *)
+Lemma run_length sv b x0 n tol o x g :
+  run mulA mulAT rows cols sv b x0 n tol = Ok (o, x, g) -> length x = length x0.
+Proof.
+  intros H. change (out_x_len (length x0) (o, x, g)).
+  destruct sv as [|itol| |]; cbn [run] in H.
+  - unfold solve_cg in H. inv_res.
+    + injection H as <- <- <-. reflexivity.
+    + eapply (loop_len _ _ cg_x); [| | |exact H]; auto.
+      intros i s out. apply cg_body_len.
+  - unfold solve_bicg in H. inv_res.
+    + injection H as <- <- <-. reflexivity.
+    + eapply (loop_len _ _ bi_x); [| | |exact H]; auto.
+      intros i s out. apply bicg_body_len.
+  - unfold solve_bicgstab in H. inv_res.
+    + injection H as <- <- <-. reflexivity.
+    + eapply (loop_len _ _ st_x); [| | |exact H]; auto.
+      intros i s out. apply stab_body_len.
+  - unfold solve_qmr in H. inv_res.
+    + injection H as <- <- <-. reflexivity.
+    + eapply (loop_len _ _ q_x); [| | |exact H]; auto.
+      intros i s out. apply qmr_body_len.
+Qed.
+End Lengths.
